@@ -45,7 +45,21 @@ pub fn fresh_dir(tag: &str) -> PathBuf {
     d
 }
 
+static PORT_COUNTER: AtomicU64 = AtomicU64::new(0);
+
+/// A port nobody listens on right now. Ports are handed out from a per-process sequence (so
+/// that two workers of one check never race for the same kernel-chosen ephemeral port) and
+/// probed by binding.
 fn free_port() -> u16 {
+    let base = 20000 + (std::process::id() as u64 * 131) % 20000;
+    for _ in 0..2000 {
+        let n = PORT_COUNTER.fetch_add(1, Ordering::SeqCst);
+        let port = (20000 + (base - 20000 + n * 7) % 40000) as u16;
+        if let Ok(l) = std::net::TcpListener::bind(("127.0.0.1", port)) {
+            drop(l);
+            return port;
+        }
+    }
     let l = std::net::TcpListener::bind("127.0.0.1:0").expect("bind ephemeral");
     l.local_addr().unwrap().port()
 }
@@ -121,6 +135,12 @@ impl Server {
                 }
                 if let Reply::Frame(Frame::Simple(s)) = c.read_or_cmd_ping() {
                     if s == b"PONG" {
+                        // make sure the answer came from *our* child: a child that lost the race
+                        // for the port exits at once with a bind error
+                        std::thread::sleep(Duration::from_millis(40));
+                        if !self.alive() {
+                            return false;
+                        }
                         return true;
                     }
                 }
